@@ -212,14 +212,22 @@ impl CaptureSocket for XPubSocket {}
 #[async_trait]
 impl Socket for XPubSocket {
     fn with_options(options: SocketOptions) -> Self {
-        let fair_queue = FairQueue::new(true);
+        let mut fair_queue = FairQueue::new(true);
+        let backend = Arc::new(XPubSocketBackend {
+            subscribers: scc::HashMap::new(),
+            fair_queue_inner: fair_queue.inner(),
+            socket_monitor: Mutex::new(None),
+            socket_options: options,
+        });
+        // A peer that closes its connection cleanly is forgotten like one that fails.
+        let weak_backend = Arc::downgrade(&backend);
+        fair_queue.set_on_stream_end(move |peer_id| {
+            if let Some(backend) = weak_backend.upgrade() {
+                backend.peer_disconnected(peer_id);
+            }
+        });
         Self {
-            backend: Arc::new(XPubSocketBackend {
-                subscribers: scc::HashMap::new(),
-                fair_queue_inner: fair_queue.inner(),
-                socket_monitor: Mutex::new(None),
-                socket_options: options,
-            }),
+            backend,
             fair_queue,
             binds: HashMap::new(),
         }
